@@ -65,8 +65,13 @@ def gen_history(ch, n):
         elif r < 0.13 and dials:
             steps.append({"op": "closedial", "script": [rng.choice(["ok", "ok", "fail"])]}); dials -= 1
         elif r < 0.25:
-            kind = rng.choice(["ok", "ok", "wrongpw", "nosuite", "discovery"])
-            if kind == "ok":
+            kind = rng.choice(["ok", "ok", "wrongpw", "nosuite", "discovery", "newsession", "newsession-wrongpw"])
+            if kind.startswith("newsession"):
+                # the version-agnostic entry point (default suites with discovery; succeeds when the BMC offers suite 17 or 3's
+                # algorithms, fails otherwise): accounted exactly like NewV2Session
+                steps.append(dict(hs.open_step(password=b"secret" if kind == "newsession" else b"nope", suites=[]), via_newsession=True))
+                have_session = have_session or (kind == "newsession" and tuple(su) in ((1, 1, 1), (3, 4, 1)))
+            elif kind == "ok":
                 steps.append(hs.open_step(suites=[su])); have_session = True
             elif kind == "wrongpw":
                 steps.append(hs.open_step(password=b"nope", suites=[su]))
